@@ -3,6 +3,8 @@
 // target in engine/fuzz/, driven by driver/c09.py.
 #include "prog.hpp"
 #include "props.hpp"
+#include <fcntl.h>
+#include <unistd.h>
 
 using namespace prog;
 
@@ -28,25 +30,45 @@ static std::string mutate(const std::string &line, hz::Rng &r, std::string &what
   return s;
 }
 
-struct FzCase { std::string text; int combo = 11, mode = 0, chunk = 16; bool internal = false; int n = 300; int start = 0; };
+struct FzCase { std::string text; int combo = 11, mode = 0, chunk = 16; bool internal = false; int n = 300; int start = 0; int flags = 0; /* 1 debug listing on, 2 a second call behind the first, 4 deprecated alias */ };
 static std::string tohex(const std::string &s) { std::string o; char b[4]; for (unsigned char c : s) { snprintf(b, sizeof b, "%02x", c); o += b; } return o; }
 static std::string fromhex(const std::string &h) { std::string o; for (size_t i = 0; i + 1 < h.size(); i += 2) o += (char)strtol(h.substr(i, 2).c_str(), nullptr, 16); return o; }
-static std::string serfz(const FzCase &c) { return "FZ|" + std::to_string(c.combo) + "|" + std::to_string(c.mode) + "|" + std::to_string(c.chunk) + "|" + (c.internal ? "1" : "0") + "|" + std::to_string(c.n) + "|" + tohex(c.text) + "|" + std::to_string(c.start); }
+static std::string serfz(const FzCase &c) { return "FZ|" + std::to_string(c.combo) + "|" + std::to_string(c.mode) + "|" + std::to_string(c.chunk) + "|" + (c.internal ? "1" : "0") + "|" + std::to_string(c.n) + "|" + tohex(c.text) + "|" + std::to_string(c.start) + "|" + std::to_string(c.flags); }
 
 static bool run_fz(const FzCase &c, std::string &why) {
+  // the debug listing goes to stdout: point it at /dev/null for the duration of the case
+  int saved = -1; if (c.flags & 1) { fflush(stdout); saved = dup(1); int nul = open("/dev/null", O_WRONLY); if (nul >= 0) { dup2(nul, 1); close(nul); } }
+  struct Restore { int fd; ~Restore() { if (fd >= 0) { fflush(stdout); dup2(fd, 1); close(fd); } } } restore{saved};
   std::vector<uint8_t> ext(c.n, 0x5a); ext.shrink_to_fit();
   static uint8_t dummy; assemblyline_t a = asm_create_instance(c.internal ? nullptr : (c.n ? ext.data() : &dummy), c.n);
   if (!a) { why = "create failed"; return false; }
   al::apply_opts(a, combo_opts(c.combo)); if (c.mode == 1) asm_set_chunk_size(a, c.chunk);
+  if (c.flags & 1) asm_set_debug(a, true);
   asm_set_offset(a, c.start);
-  int rc, cnt = 0;
-  if (c.mode == 2) { std::vector<char> w(c.text.begin(), c.text.end()); w.push_back(0); rc = asm_assemble_string_counting_chunks(a, w.data(), c.chunk, &cnt); }
-  else rc = asm_assemble_str(a, c.text.c_str());
-  int off = asm_get_offset(a); bool ok = true;
-  if (rc != 0 && rc != 1) { ok = false; why = "return value " + std::to_string(rc); }
-  if (ok && rc == 0 && (off < c.start || (!c.internal && off > c.n))) { ok = false; why = "offset " + std::to_string(off) + " outside the buffer"; }
+  bool ok = true; int start = c.start;
+  for (int call = 0; call < ((c.flags & 2) ? 2 : 1) && ok; call++) {
+    int rc, cnt = 0;
+    if (c.mode == 2) { std::vector<char> w(c.text.begin(), c.text.end()); w.push_back(0); rc = (c.flags & 4) ? assemble_string_counting_chunks(a, w.data(), c.chunk, &cnt) : asm_assemble_string_counting_chunks(a, w.data(), c.chunk, &cnt); }
+    else rc = (c.flags & 4) ? assemble_str(a, c.text.c_str()) : asm_assemble_str(a, c.text.c_str());
+    int off = asm_get_offset(a);
+    if (rc != 0 && rc != 1) { ok = false; why = "return value " + std::to_string(rc); }
+    if (ok && rc == 0 && (off < start || (!c.internal && off > c.n))) { ok = false; why = "offset " + std::to_string(off) + " outside the buffer"; }
+    start = off;
+  }
   asm_destroy_instance(a);
   return ok;
+}
+
+// a line whose filtered text (blanks removed except the one behind the mnemonic) has exactly `target` characters and
+// ends in a fragment: the parser's look-ahead meets the end of its 100-byte line window
+static std::string edge_line(hz::Rng &r, std::string &what) {
+  static const char *HEAD[] = {"mov rax, 0x", "add qword [rbx+rcx*8+0x", "mov r", "lea rax, [rbx+", "vperm2i128 ymm1, ymm2, [rax+0x", "jmp 0x", "mov qword [0x", "push -", "mov rax, [-0x", "nop", "xchg rax, [2*rcx+"};
+  static const char *TAIL[] = {"", "5", ",[-", ",[", ",[-0", ",[-0x", "10],7", "],0x", "],-", "]", ",", ",rbx", ",[rax+", ",[rax*", ",[2*", ",qword", ",far", ",-", ",0", ",0x", ";c", "\r", "\r\n", "\n", " ", "\t", ":", "%", "]]", ",[]", ",[0", ",[rsp+rsp", "x", "\x7f"};
+  std::string head = HEAD[r.below(11)], tail = TAIL[r.below(34)]; size_t target = 94 + r.below(10);
+  auto flt = [](const std::string &t) { size_t n = 0; bool sp = false; for (char ch : t) { if (ch == ';' || ch == '%' || ch == '\r' || ch == '\n') break; if ((unsigned char)ch > '!') n++; else if (ch == ' ' && !sp) { n++; sp = true; } } return n; };
+  size_t have = flt(head + tail); std::string fill(target > have ? target - have : 0, "0a9f1r[,"[r.below(6) ? 0 : r.below(8)]);
+  what += "window-edge ";
+  return head + fill + tail;
 }
 
 void prop_c09_grammar(hz::Ctx &ctx) {
@@ -56,12 +78,13 @@ void prop_c09_grammar(hz::Ctx &ctx) {
   static const int NS[] = {0, 19, 20, 21, 64, 300, 300, 5000};
   for (long long i = 0; i < total; i++) {
     std::string what; const std::string &base = P.lines[r.below(P.lines.size())];
-    FzCase c; if (r.below(5) == 0) { c.text = base; if (r.coin()) c.text += "\n" + P.lines[r.below(P.lines.size())]; what = "unmutated "; } else c.text = mutate(base, r, what); c.combo = (int)r.below(12); c.mode = (int)r.below(3); static const int CH[] = {0, 1, 2, 3, 8, 16, 17, 4096}; c.chunk = CH[r.below(8)]; c.internal = r.below(4) == 0; c.n = NS[r.below(8)];
+    FzCase c; if (r.below(5) == 0) { c.text = base; if (r.coin()) c.text += "\n" + P.lines[r.below(P.lines.size())]; what = "unmutated "; } else if (r.below(12) == 0) c.text = edge_line(r, what); else c.text = mutate(base, r, what); c.combo = (int)r.below(12); c.mode = (int)r.below(3); static const int CH[] = {0, 1, 2, 3, 8, 16, 17, 4096}; c.chunk = CH[r.below(8)]; c.internal = r.below(4) == 0; c.n = NS[r.below(8)];
     { int lim = c.internal ? 6000 : c.n; static const int BACK[] = {20, 21, 22, 23, 24, 25, 28, 32, 19, 0}; int bk = BACK[r.below(10)]; c.start = r.below(3) == 0 ? 0 : (lim >= bk ? lim - bk : 0); if (r.below(8) == 0) c.start = (int)r.below(lim + 1); }
+    c.flags = (r.below(6) == 0 ? 1 : 0) | (r.below(5) == 0 ? 2 : 0) | (r.below(7) == 0 ? 4 : 0);
     if (!ctx.take()) continue;
     std::string id = serfz(c); if (!ctx.begin(id, hz::jesc(c.text).substr(0, 300))) continue;
     ctx.cls("part:grammar-mutation"); { size_t p = 0; while (p < what.size()) { size_t e = what.find(' ', p); ctx.cls("mut:" + what.substr(p, e - p)); p = e + 1; } }
-    if (c.text.size() >= 100) ctx.cls("len:>=100");
+    if (c.text.size() >= 100) ctx.cls("len:>=100"); if (c.flags & 1) ctx.cls("debug-listing"); if (c.flags & 2) ctx.cls("second-call"); if (c.flags & 4) ctx.cls("deprecated-alias");
     // non-trivial: reaches the operand tokenizer (a mnemonic-like token followed by a blank and more text)
     size_t sp = c.text.find(' '); if (sp != std::string::npos && sp > 0 && sp + 1 < c.text.size()) ctx.nontrivial(c.text);
     std::string why; bool ok = run_fz(c, why);
@@ -72,6 +95,6 @@ void prop_c09_grammar(hz::Ctx &ctx) {
 
 int replay_fz(const std::string &caseid) {
   auto f = split(caseid, '|'); if (f.size() < 7 || f[0] != "FZ") return 2;
-  FzCase c; c.combo = atoi(f[1].c_str()); c.mode = atoi(f[2].c_str()); c.chunk = atoi(f[3].c_str()); c.internal = f[4] == "1"; c.n = atoi(f[5].c_str()); c.text = fromhex(f[6]); if (f.size() > 7) c.start = atoi(f[7].c_str());
+  FzCase c; c.combo = atoi(f[1].c_str()); c.mode = atoi(f[2].c_str()); c.chunk = atoi(f[3].c_str()); c.internal = f[4] == "1"; c.n = atoi(f[5].c_str()); c.text = fromhex(f[6]); if (f.size() > 7) c.start = atoi(f[7].c_str()); if (f.size() > 8) c.flags = atoi(f[8].c_str());
   std::string why; bool ok = run_fz(c, why); printf("text: %s\n", hz::jesc(c.text).c_str()); if (ok) { printf("OK\n"); return 0; } printf("FAIL %s\n", why.c_str()); return 1;
 }
